@@ -10,6 +10,8 @@
 -/
 import Vita.Common.IntE
 import Vita.C14.Gen
+import Vita.C14.GenNum
+import Vita.C14.Lemmas
 
 namespace Vita.C14
 open Vita.IntE
@@ -242,6 +244,92 @@ theorem clamp32_in32 (x : Int) : In32 (clamp32 x) := by
 theorem clamp32_exact (x : Int) (h : In32 x) : clamp32 x = x := by
   unfold clamp32; simp only [inW32_iff] at h; split <;> (try split) <;> omega
 
+
+/-! ### the ephemeral constant `integer::number`: parameter (a double) → `int`
+
+`GenNum.numberEval` / `numberInit` / `cast` are regenerated from int.h.  The conversion
+`static_cast<int>(double)` is the CHECKED `B64.toInt` of the exact binary64 model: a fault is the
+undefined behaviour of C++17 [conv.fpint].  The statements quantify over ALL bit patterns. -/
+
+/-- the raw conversion is defined exactly on the finite doubles strictly between −2^31−1 and 2^31 -/
+theorem toInt32_defined_iff (p : Nat) :
+    (∃ n, B64.toInt .i32 p = .ok n) ↔
+      ∃ u, B64.ext p = .fin u ∧ In32 (Int.tdiv u B64.D) := by
+  unfold B64.toInt
+  cases h : B64.ext p <;> simp [B64.Ext.trunc]
+  rename_i u
+  by_cases hin : InW .i32 (Int.tdiv u B64.D) <;> simp [hin]
+
+/-- `number::eval` executes no undefined conversion, for EVERY double parameter (NaN, ±inf and
+    out-of-range values included), and returns the saturated truncation -/
+theorem number_eval_spec (p : Nat) :
+    GenNum.numberEval p = .ok (B64.satSpec (B64.ext p)) := by
+  unfold GenNum.numberEval
+  number_script p
+
+theorem satSpec_in32 (x : B64.Ext) : In32 (B64.satSpec x) := by
+  cases x <;> simp only [B64.satSpec, inW32_iff] <;> try omega
+  exact (inW32_iff _).mp (clamp32_in32 _)
+
+/-- … so the value handed to `value_t` is always a representable `int` -/
+theorem number_eval_total (p : Nat) : ∃ n, GenNum.numberEval p = .ok n ∧ In32 n :=
+  ⟨_, number_eval_spec p, satSpec_in32 _⟩
+
+/-- a parameter that holds an `int` (what `init` stores) is read back exactly -/
+theorem number_roundtrip (n : Int) (h : In32 n) : GenNum.numberEval (B64.ofInt n) = .ok n := by
+  rw [number_eval_spec, B64.ext_ofInt n (by simp only [inW32_iff] at h; omega)]
+  simp only [B64.satSpec, B64.trunc_whole]
+  rw [clamp32_exact n h]
+
+/-- `init` followed by `eval`: whatever integer `random::between<int>(min, upp)` returns inside the
+    interval it promises is stored without rounding and evaluated without a fault to that integer -/
+theorem number_init_eval (between : Int → Int → Int) (min upp : Int) (hmin : In32 min) (hupp : In32 upp)
+    (hb : min ≤ between min upp ∧ between min upp < upp) :
+    GenNum.numberEval (GenNum.numberInit between min upp) = .ok (between min upp) := by
+  unfold GenNum.numberInit
+  apply number_roundtrip
+  simp only [inW32_iff] at *; omega
+
+/-- `integer::cast` hands back the stored `int` unchanged and otherwise raises (no conversion) -/
+theorem cast_spec {F : Type} (v : Val F) :
+    GenNum.cast v = (match v with | .int n => some n | _ => none) := by
+  unfold GenNum.cast B64.getInt; cases v <;> rfl
+
+/-- every `return` of every integer primitive selects the `int` alternative of `value_t` or hands an
+    argument back unchanged: no integer result ever travels through `double` -/
+theorem returns_int_or_arg :
+    ∀ p ∈ GenNum.retKinds, ∀ k ∈ p.2, k = "int" ∨ k = "arg" := by decide
+
+/-- the classes of namespace `vita::integer` (from the AST) are exactly the ones covered here:
+    `number` (above) and the nine arithmetic / conditional primitives of `ops_covered` -/
+theorem classes_covered :
+    GenNum.classes.map (·.1) = "number" :: ["add", "div", "ife", "ifl", "ifz", "mod", "mul", "shl", "sub"] ∧
+    GenNum.functions = ["cast"] := by decide
+
+/-- every member defined with a body is one this check (or the named one) accounts for:
+    `eval` / `init` / the boolean flags here, `penalty_nvi` = `comparison_function_penalty` in C13 (and C01),
+    `display` in C19 -/
+theorem members_covered :
+    ∀ c ∈ GenNum.classes, ∀ m ∈ c.2.2.1,
+      m ∈ ["eval", "init", "parametric", "associative", "penalty_nvi", "display"] := by decide
+
+theorem flags_spec :
+    GenNum.flags = [("number", "parametric", true), ("add", "associative", true), ("mul", "associative", true)] ∧
+    -- the four-term comparison penalty (it reads four argument rows) is attached to the four-argument
+    -- conditionals only
+    GenNum.penalties = ["ife", "ifl"] := by
+  decide
+
+set_option exponentiation.threshold 2048
+
+/-- the un-guarded conversion (`static_cast<int>(p.fetch_param())`, the body before the repair) is
+    undefined for 1e10, NaN and +inf -/
+theorem unguarded_conversion_faults :
+    B64.toInt .i32 0x4202A05F20000000 = .error .narrowing ∧
+    B64.toInt .i32 0x7FF8000000000000 = .error .narrowing ∧
+    B64.toInt .i32 0x7FF0000000000000 = .error .narrowing := by
+  refine ⟨?_, ?_, ?_⟩ <;> rfl
+
 /-! ### non-vacuity: the hypotheses are met by boundary operands and the statements bite -/
 
 example : In32 2147483647 ∧ In32 (-2147483648)  := by decide
@@ -250,5 +338,12 @@ example : run Gen.mulE (env2 (-2147483648) (-2147483648)) = .ok 2147483647  := b
 example : run Gen.divE (env2 (-2147483648) (-1)) = .ok (-2147483648)  := by rfl
 example : run Gen.shlE (env2 1 31) = .ok 1  := by rfl
 example : run Gen.shlE (env2 1 30) = .ok 1073741824 := by rfl
+
+example : GenNum.numberEval 0x41DFFFFFFFC00000 = .ok 2147483647 := by rfl      -- 2147483647.0
+example : GenNum.numberEval 0xC1E0000000200000 = .ok (-2147483648) := by rfl     -- -2147483649.0: saturates
+example : GenNum.numberEval 0xC1E00000001FFFFF = .ok (-2147483648) := by rfl     -- -2147483648.99…: truncates
+example : GenNum.numberEval 0xBFEFFFFFFFFFFFFF = .ok 0 := by rfl                 -- -0.99…
+example : GenNum.numberEval 0x7FF8000000000000 = .ok 0 := by rfl                 -- NaN
+example : B64.ofInt (-128) = 0xC060000000000000 := by decide
 
 end Vita.C14
